@@ -97,7 +97,7 @@ func (a answer) String() string {
 func genGraph(r *driver.Run, n int, prev *model.G) (*model.G, string) {
 	t := r.T
 	g := model.NewG(n)
-	fam := t.Draw(13)
+	fam := t.Draw(17)
 	name := ""
 	switch fam {
 	case 0:
@@ -142,6 +142,63 @@ func genGraph(r *driver.Run, n int, prev *model.G) (*model.G, string) {
 			j := 1 + t.Draw(n-1)
 			for i := 0; i < n; i++ {
 				g.Add(i, (i+j)%n)
+			}
+		}
+	case 13:
+		// complete multipartite with random part sizes (large groups, dense)
+		part := make([]int, n)
+		k := 1 + t.Draw(4)
+		for v := range part {
+			part[v] = t.Draw(k)
+		}
+		name = fmt.Sprintf("complete multipartite, parts %v", part)
+		for j := 0; j < n; j++ {
+			for i := 0; i < j; i++ {
+				if part[i] != part[j] {
+					g.Add(i, j)
+				}
+			}
+		}
+	case 14:
+		// disjoint union of cliques, or its complement
+		part := make([]int, n)
+		k := 1 + t.Draw(4)
+		for v := range part {
+			part[v] = t.Draw(k)
+		}
+		co := t.Chance(1, 2)
+		name = fmt.Sprintf("union of cliques %v complement=%v", part, co)
+		for j := 0; j < n; j++ {
+			for i := 0; i < j; i++ {
+				if (part[i] == part[j]) != co {
+					g.Add(i, j)
+				}
+			}
+		}
+	case 15, 16:
+		// Cartesian product K_a x K_b (rook graph) on the first a*b vertices, rest isolated or joined to all
+		a := 2 + t.Draw(3)
+		b := 2 + t.Draw(3)
+		for a*b > n && a > 1 {
+			a--
+		}
+		for a*b > n && b > 1 {
+			b--
+		}
+		join := fam == 16
+		name = fmt.Sprintf("rook graph K%d x K%d (+%d extra vertices, joined=%v)", a, b, n-a*b, join)
+		for x := 0; x < a*b; x++ {
+			for y := 0; y < x; y++ {
+				if x/b == y/b || x%b == y%b {
+					g.Add(x, y)
+				}
+			}
+		}
+		if join {
+			for x := a * b; x < n; x++ {
+				for y := 0; y < x; y++ {
+					g.Add(x, y)
+				}
 			}
 		}
 	case 10, 11, 12:
@@ -210,7 +267,7 @@ func genGraph(r *driver.Run, n int, prev *model.G) (*model.G, string) {
 			}
 		}
 	}
-	if (fam <= 5 || fam >= 10) && t.Chance(1, 2) && n > 1 {
+	if (fam <= 5 || fam >= 10) && t.Chance(2, 3) && n > 1 {
 		// relabel structured families so the structure is not aligned with the labels
 		p := t.Perm(n)
 		h := model.NewG(n)
@@ -541,7 +598,7 @@ func main() {
 		Property: "C02",
 		Engine:   "canon-service",
 		Level:    "exploration",
-		Rule: "a case is one seeded history of up to 14 labelling requests through ONE reused CanonicalStorage/CanonicalOrderedPartition/CanonicalOptions triple of tape-chosen capacity N <= 9 (one history in six: 10 <= N <= 16): graph sizes go up and down within capacity; families: edgeless, complete, cycle, complete bipartite, two copies of a random graph, circulants, relabelled copy of the previous graph, random densities; some requests carry vertex classes (an ordered partition, classes ascending) and some are 'interrupted' (CheckViability with tape-drawn ViableBits, which may return early and leave the partition mid-search before the next Reset). " +
+		Rule: "a case is one seeded history of up to 14 labelling requests through ONE reused CanonicalStorage/CanonicalOrderedPartition/CanonicalOptions triple of tape-chosen capacity N <= 9 (one history in six: 10 <= N <= 16): graph sizes go up and down within capacity; families: edgeless, complete, cycle, complete bipartite, complete multipartite, unions of cliques and their complements, rook graphs, two copies of a random graph, circulants, planted automorphisms, relabelled copy of the previous graph, random densities; some requests carry vertex classes (an ordered partition, classes ascending) and some are 'interrupted' (CheckViability with tape-drawn ViableBits, which may return early and leave the partition mid-search before the next Reset). " +
 			"Each answer must equal the same call on fresh storage and CanonicalIsomorphFull (perm, orbit partition, generator list), perm must be a permutation, and for groups of up to 60000 elements brute force over all (class-preserving) automorphisms must confirm orbits = orbits of Aut(g), every generator in Aut(g), closure of the generators = Aut(g). Non-trivial = at least 3 requests with at least one size change; distinct = distinct fingerprints of the observed answers.",
 		Assumptions: []string{
 			"the caller protocol of the search package is followed: Reset(n, m, classes) before every call, sizes within the capacity the pair was created with, n >= 1",
